@@ -279,6 +279,14 @@ pub open spec fn funds_of(funds: Seq<Coin>, denom: Seq<char>) -> nat decreases f
 pub fn verif_sum_funds(funds: &Vec<Coin>, denom: &String) -> (r: Uint128)
     requires funds_of(funds@, denom@) < POW128
     ensures r@ == funds_of(funds@, denom@) { unimplemented!() }
+/// D5 target: `funds.iter().map(|c| c.amount).sum::<Uint128>()` — the amounts of ALL coins, whatever their denom
+pub open spec fn funds_total(funds: Seq<Coin>) -> nat decreases funds.len() {
+    if funds.len() == 0 { 0 } else { funds_total(funds.drop_last()) + funds.last().amount@ }
+}
+#[verifier::external_body]
+pub fn verif_sum_all_funds(funds: &Vec<Coin>) -> (r: Uint128)
+    requires funds_total(funds@) < POW128
+    ensures r@ == funds_total(funds@) { unimplemented!() }
 // ---------- querier ----------
 pub struct QuerierWrapper { pub id: Ghost<int> }
 impl Clone for QuerierWrapper { #[verifier::external_body] fn clone(&self) -> (r: Self) ensures r == *self { unimplemented!() } }
